@@ -250,6 +250,9 @@ type WriteOpts struct {
 	ForeignSID int64
 	// FinishEach calls Finish after every top-level value (the writer is reused for the next batch).
 	FinishEach bool
+	// FinishEmpty adds Finish calls with nothing to flush: one before the first value and a second
+	// one after every Finish that FinishEach makes. They must change nothing.
+	FinishEmpty bool
 	OnCall    func(name string, err error)
 }
 
@@ -364,6 +367,11 @@ func WriteStream(w ion.Writer, vals []*rm.Value, o *WriteOpts) error {
 	if o == nil {
 		o = &WriteOpts{}
 	}
+	if o.FinishEmpty {
+		if err := o.note("Finish", w.Finish()); err != nil {
+			return err
+		}
+	}
 	for i, v := range vals {
 		if err := WriteValue(w, v, o); err != nil {
 			return err
@@ -371,6 +379,11 @@ func WriteStream(w ion.Writer, vals []*rm.Value, o *WriteOpts) error {
 		if o.FinishEach && i < len(vals)-1 {
 			if err := o.note("Finish", w.Finish()); err != nil {
 				return err
+			}
+			if o.FinishEmpty {
+				if err := o.note("Finish", w.Finish()); err != nil {
+					return err
+				}
 			}
 		}
 	}
